@@ -3,6 +3,7 @@
   to the hand-written model `extractDistrust` (Model/Basic.lean).
 -/
 import EtVerif.Proofs.TrHelpers
+import EtVerif.Proofs.TrMatSmall
 namespace EtVerif.Tr
 open EtVerif EtVerif.GoSem EtVerif.Gen Scalar
 variable {α : Type} [Scalar α]
@@ -248,16 +249,6 @@ theorem extract_loop (fuel0 : Nat) :
         exact c1
       · rw [c2]; simp [b2]
       · rw [c3]; simp [b3]
-
-omit [Scalar α] in
-theorem CSMatrix_Dim_sq (g : GCSMatrix α) (h : g.MajorDim = g.MinorDim) :
-    ∃ st, Gen.CSMatrix_Dim g = .ok (st, (g.MajorDim, none)) := by
-  simp [Gen.CSMatrix_Dim, CSMatrix_Dim.body, Stm.run, Stm.seq, Stm.ite, Stm.ret, Stm.skip, pure, Except.pure, h]
-
-omit [Scalar α] in
-theorem CSMatrix_Dim_nsq (g : GCSMatrix α) (h : g.MajorDim ≠ g.MinorDim) :
-    ∃ st, Gen.CSMatrix_Dim g = .ok (st, (0, some ⟨"ErrDimensionMismatch"⟩)) := by
-  simp [Gen.CSMatrix_Dim, CSMatrix_Dim.body, Stm.run, Stm.seq, Stm.ite, Stm.ret, pure, Except.pure, h]
 
 /-- Go `basic.ExtractDistrust` = the model's `extractDistrust`: every row partitioned by sign in place, the
     negative part sign-reversed into a fresh matrix; a non-square matrix is refused untouched. -/
